@@ -89,11 +89,20 @@ pub fn run(seed: u64) -> RunOutcome {
     // hint: at, just before, just past the last cluster (= n + 1), or unknown
     let last = n + 1;
     let taken = u32::from(cfg.vol.tail_taken);
-    cfg.vol.hint = Some(match r.below(10) {
+    let mut stale_hint = false;
+    cfg.vol.hint = Some(match r.below(12) {
         // cluster numbers whose low 16-bit word is zero / all ones (the directory entry stores the number as two words)
         8 | 9 => {
             let k = r.range(1, u64::from(last >> 16).max(1)) as u32;
             ((k << 16) + r.range(0, 2) as u32 - 1).min(last)
+        }
+        // ... and whose low 24 bits are zero / all ones (a table entry *value* like that must still count as "in use");
+        // these runs start with a session that is abandoned, so the next one scans from the same, now stale, hint
+        10 | 11 => {
+            stale_hint = true;
+            let sh = if last >> 24 > 0 && r.chance(2, 3) { 24 } else { 16 };
+            let k = r.range(1, u64::from(last >> sh).max(1)) as u32;
+            ((k << sh) - 1).min(last - 2)
         }
         0 => last - 1,
         1 => last,
@@ -119,8 +128,22 @@ pub fn run(seed: u64) -> RunOutcome {
     prof.w_checkpoint = 6;
     prof.w_remount = 5;
     prof.invalid_names = 10;
+    if stale_hint {
+        prof.steps += 8;
+    }
     let mut g = Gen::new(r.next_u64(), prof);
-    let res = exec::run(cfg.clone(), "C20", &mut g, 60);
+    if stale_hint {
+        let cl = u64::from(cfg.vol.spc) * u64::from(cfg.vol.bps);
+        let q = &mut g.queue;
+        q.push_back(Op::CreateFile { base: 0, path: "first.bin".into(), keep: Some(0) });
+        q.push_back(Op::Write { f: 0, len: (cl * r.range(2, 3) + r.below(cl)).min(200_000) as u32, fill: r.next_u64() });
+        q.push_back(Op::CloseFile { f: 0 });
+        q.push_back(Op::Remount { how: 2 });
+        q.push_back(Op::CreateFile { base: 0, path: "second.bin".into(), keep: Some(0) });
+        q.push_back(Op::Write { f: 0, len: (cl + r.below(cl)).min(200_000) as u32, fill: r.next_u64() });
+        q.push_back(Op::CloseFile { f: 0 });
+    }
+    let res = exec::run(cfg.clone(), "C20", &mut g, 70);
     o.evaluations = res.stats.steps.max(1);
     o.stats = res.stats;
     *o.counters.entry(format!("volumes_{}_GiB", (u64::from(cfg.vol.total_sectors) * u64::from(cfg.vol.bps)) >> 30)).or_insert(0) += 1;
